@@ -19,6 +19,7 @@ import (
 	"runtime/debug"
 	"sort"
 	"strings"
+	"time"
 
 	"github.com/goatcms/goatcore/filesystem"
 	"github.com/goatcms/goatcore/filesystem/filespace/diskfs"
@@ -758,6 +759,17 @@ func run(c Case) hx.Verdict {
 		}
 		return &f
 	}
+	secondRead := func(what string, fs fsmodel.FS, p string) *hx.Verdict {
+		ch := make(chan reading, 1)
+		go func() { ch <- readStream(fs, p, c.Bufs, len(plain)) }()
+		select {
+		case r := <-ch:
+			return judgeBad(what+" (second read after a refused one)", "Reader", r)
+		case <-time.After(20 * time.Second):
+			f := fail("integrity-answered", "Reader of %s was refused correctly, but a second Reader of the same stored bytes was not answered within 20 s (the refused read left the file of the underlying filespace open or locked)", what)
+			return &f
+		}
+	}
 	step = 8
 	same := SameMaterial(c.Key, c.Other, c.Key.HostOnly)
 	if bytes.Equal(c.Key.Secret, c.Other.Secret) && bytes.Equal(c.Key.Salt, c.Other.Salt) {
@@ -770,6 +782,11 @@ func run(c Case) hx.Verdict {
 			}
 			if f := judgeBad(what, "Reader", readStream(encO, prefix+p, c.Bufs, len(plain))); f != nil {
 				return *f
+			}
+			if !same {
+				if f := secondRead(what, encO, prefix+p); f != nil {
+					return *f
+				}
 			}
 		}
 	}
@@ -791,8 +808,12 @@ func run(c Case) hx.Verdict {
 		if f := judgeBad(what, "Reader", readStream(encR, prefix+tpath, c.Bufs, len(plain))); f != nil {
 			return f
 		}
-		// a failed stream read may keep the base file open/locked: drop the node
-		base.Remove(prefix + tpath)
+		// the damaged file stays a file with modified stored bytes: a second read of it must be
+		// answered with an error as well (a refused read that keeps the base file locked never
+		// answers the next one)
+		if f := secondRead(what, encR, prefix+tpath); f != nil {
+			return f
+		}
 		return nil
 	}
 	L := len(blob)
